@@ -74,6 +74,26 @@ def con_vars(con):
     return vs
 
 
+class ArgumentMutated(Exception):
+    pass
+
+
+def blow_up_store(target):
+    """encode large inequalities in OTHER managers until the process-wide diagram store holds more than `target` nodes"""
+    import tools.rect.pseudobool as pbm
+    import tools.rect.satmanager as smm
+    k = 0
+    while len(pbm.memory) <= target:
+        m = smm.SATManager()
+        xs = [m.newvar(f'v{i}') for i in range(18)]
+        e = pbm.Expr()
+        for i, x in enumerate(xs):
+            e = e + (3 + ((7 * i + 11 * k) % 23)) * x
+        m.pseudoboolencoding(e >= 60 + (k % 40))
+        k += 1
+    return k
+
+
 class Posting:
     """posts constraints of the language to a real SATManager"""
 
@@ -107,13 +127,21 @@ class Posting:
             self.scratch.extend(self.lit(l) for l in con[1])
             self.sm.add_clause(self.scratch)
         elif kind == 'imply':
-            self.sm.imply([self.lit(l) for l in con[1]], self.lit(con[2]))
+            ls = [self.lit(l) for l in con[1]]
+            keep = list(ls)
+            self.sm.imply(ls, self.lit(con[2]))
+            if ls != keep or any(a is not b for a, b in zip(ls, keep)):
+                raise ArgumentMutated('imply changed the list of literals it was given')
         elif kind == 'amo':
             ls = [self.lit(l) for l in con[3]]
+            keep = list(ls)
             if con[1] == 'quad':
                 self.sm.quadraticencoding(ls)
             else:
                 self.sm.heuleencoding(ls, con[2])
+            # the caller goes on using its list (the exactly-one idiom posts the same list as a clause next)
+            if len(ls) != len(keep) or any(a is not b for a, b in zip(ls, keep)):
+                raise ArgumentMutated(f'{con[1]} encoding changed the list of literals it was given')
         elif kind == 'pbshared':
             # ONE expression object used as the left-hand side of several inequalities (as rect.solve does with its
             # area expressions): posting one must not change what the next one means
@@ -229,7 +257,7 @@ def check_case(case, res):
     import tools.rect.pseudobool as pbm
     pbm.memory[:] = [0, 1]
     pbm.mmap.clear()
-    attrs = dict(kinds=sorted({c[0] + (':' + str(c[2]) if c[0] == 'pb' else '') for c in case['same']}),
+    attrs = dict(kinds=sorted({c[0] + (':' + str(c[2]) if c[0] == 'pb' else '') for c in case['same'] if c[0] != 'blowup'}),
                  history=len(case.get('pre', [])), n=len(case['same']))
     for con in case.get('pre', []):
         Q = Posting()
@@ -241,10 +269,19 @@ def check_case(case, res):
     accepted = []
     uservars = set()
     for con in case['same']:
+        if con[0] == 'blowup':
+            # not a constraint: other managers fill the process-wide diagram store beyond a size threshold between two
+            # postings of the probed manager
+            blow_up_store(con[1])
+            attrs['store_blown_to'] = con[1]
+            continue
         uservars |= con_vars(con)
         before = P.snapshot()
         try:
             P.post(con)
+            accepted.append(con)
+        except ArgumentMutated as e:
+            res.violation('argument-mutated', case, dict(attrs, kind=con[0]), 'the caller\'s list is left as it was', str(e))
             accepted.append(con)
         except Exception as e:  # noqa
             if P.snapshot() != before:
@@ -418,6 +455,12 @@ def run_shard(shard, tier, res):
         for con in amo_cases():
             check_case(dict(pre=[], same=[con]), res)
         res.samples.append(dict(pre=[], same=[['amo', 'heule', 3, [['a', 1], ['b', 1], ['c', 1], ['d', 1], ['e', 1]]]]))
+    elif k == 'blowup':
+        alpha = sub_alphabet(40)
+        pbs = [c for c in alpha if c[0] == 'pb'][shard['i']::4][:2]
+        a, b = pbs[0], pbs[-1]
+        check_case(dict(pre=[], same=[a, ['blowup', shard['target']], b]), res)
+        check_case(dict(pre=[], same=[b, a, ['blowup', shard['target']], a, ['clause', [['a', 1], ['b', 0]]]]), res)
     elif k == 'pb':
         for con in pb_cases(3, range(-3, 4), True):
             if con[1][0][2] != shard['c0'] or tuple(t[1] for t in con[1][:3]) != POL3[shard['pol']]:
